@@ -40,6 +40,10 @@ P_Verdict(o) == \A c \in Cl(o) : (ClosedSeen(o, c) /\ VerdictOf(o, c) \in Verdic
 P_Freed(o) == \A c \in Cl(o) : (ClosedSeen(o, c) /\ VerdictOf(o, c) \in Verdicts \ {"ServerConnectionError"}) =>
     /\ ~o.cl[c].atClose.claimed /\ ~o.cl[c].atClose.up
     /\ (o.cl[c].atClose.everOpened => (o.cl[c].atClose.closedMood = MoodOf(VerdictOf(o, c)) /\ ~o.cl[c].atClose.listening))
+\* "the verdict is happy iff ..., LonelyError if ..., ...": with nobody forging or altering frames and no bug in the
+\* application's own callbacks, the closed notification carries one of the verdicts of the statement - an internal error
+\* in its place is a wrong verdict (and C14's business besides)
+P_VerdictKnown(o) == \A c \in Cl(o) : (ClosedSeen(o, c) /\ ~o.tampered /\ ~o.appBug) => VerdictOf(o, c) \in Verdicts
 P_CloseCompletes(o) == \A c \in Cl(o) : (o.cl[c].closeCalled /\ o.drained /\ ~o.cl[c].dead) => ClosedSeen(o, c)
 \* ---- C01
 P_KeyAgree(o) == Two(o) => \A c \in Cl(o) :
@@ -63,12 +67,19 @@ P_OnlyOneCode(o) == \A c \in Cl(o) :
     /\ \A i \in 1..Len(api) : api[i].res \in {"ok", "OnlyOneCodeError", "KeyFormatError"}
     /\ CountOf(EvOf(o, c), "code") <= 1
 
+\* ---- supplementary (no listed property): the WormholeStatus reports (statusHist: <<conn, key, code, events seen>>) never go
+\*      backwards, and at rest the last report agrees with what the application was told
+P_StatusSane(o) == \A c \in Cl(o) :
+    LET h == o.cl[c].statusHist IN
+    /\ StatusMonotoneSeq(h)
+    /\ Len(h) > 0 => StatusConsistentEv(<<h[Len(h)][1], h[Len(h)][2], h[Len(h)][3]>>, EvOf(o, c), o.cl[c].mode = "delegated")
+
 Names == <<"NoInternal", "DocVerdict", "OnceEach", "Causal", "VersionsFirst", "LateGets", "InOrderOnce",
            "VersionsHonest", "AllDelivered", "KeyEstablished", "ClosedOnce", "NothingAfter", "Verdict", "Freed",
-           "CloseCompletes", "KeyAgree", "OnlyOneCode", "Backed">>
+           "CloseCompletes", "KeyAgree", "OnlyOneCode", "Backed", "StatusSane", "VerdictKnown">>
 Vector(o) == <<P_NoInternal(o), P_DocVerdict(o), P_OnceEach(o), P_Causal(o), P_VersionsFirst(o), P_LateGets(o),
                P_InOrderOnce(o), P_VersionsHonest(o), P_AllDelivered(o), P_KeyEstablished(o), P_ClosedOnce(o),
-               P_NothingAfter(o), P_Verdict(o), P_Freed(o), P_CloseCompletes(o), P_KeyAgree(o), P_OnlyOneCode(o), P_Backed(o)>>
+               P_NothingAfter(o), P_Verdict(o), P_Freed(o), P_CloseCompletes(o), P_KeyAgree(o), P_OnlyOneCode(o), P_Backed(o), P_StatusSane(o), P_VerdictKnown(o)>>
 
 \* ---- vacuity: was the predicate's antecedent true on this run (was there anything for it to judge)?  Same order as Names.
 AnyCl(o, P(_)) == \E c \in Cl(o) : P(c)
@@ -90,7 +101,9 @@ Exercised(o) == <<
     AnyCl(o, LAMBDA c : o.cl[c].closeCalled /\ o.drained /\ ~o.cl[c].dead),
     Two(o) /\ ((o.match /\ AnyCl(o, LAMBDA c : o.cl[c].verifier # "-")) \/ (~o.match /\ o.bothCoded)),
     AnyCl(o, LAMBDA c : Len(o.cl[c].codeApi) > 1),
-    o.tampered /\ AnyCl(o, LAMBDA c : CountOf(EvOf(o, c), "versions") + CountOf(EvOf(o, c), "message") > 0) >>
+    o.tampered /\ AnyCl(o, LAMBDA c : CountOf(EvOf(o, c), "versions") + CountOf(EvOf(o, c), "message") > 0),
+    AnyCl(o, LAMBDA c : Len(o.cl[c].statusHist) > 1),
+    ~o.tampered /\ ~o.appBug /\ AnyCl(o, LAMBDA c : ClosedSeen(o, c)) >>
 
 VARIABLE k
 Init == k = 0
